@@ -46,10 +46,18 @@ Terms(negs, e, r, role, g, i) ==
        \o <<Id(e, r, role, g, negs[i])>>
        \o Terms(negs, e, r, role, g, i + 1)
 
+\* layout 5: the terms of a profile group are separated by a bare NEWLINE (no blank next to it)
+RECURSIVE TermsNL(_,_,_,_,_,_)
+TermsNL(negs, e, r, role, g, i) ==
+  IF i > Len(negs) THEN <<>>
+  ELSE (IF i > 1 THEN <<NLt>> ELSE <<>>)
+       \o (IF negs[i] THEN <<P("NOT")>> ELSE <<>>)
+       \o <<Id(e, r, role, g, negs[i])>>
+       \o TermsNL(negs, e, r, role, g, i + 1)
 RECURSIVE Groups(_,_,_,_,_)
 Groups(gs, e, r, s, g) ==
   IF g > Len(gs) THEN <<>>
-  ELSE Opt(s) \o <<P("L_ANGLE")>> \o In(s) \o Terms(gs[g], e, r, "prof", g, 1) \o In(s) \o <<P("R_ANGLE")>>
+  ELSE Opt(s) \o <<P("L_ANGLE")>> \o In(s) \o (IF s = 5 THEN TermsNL(gs[g], e, r, "prof", g, 1) ELSE Terms(gs[g], e, r, "prof", g, 1)) \o In(s) \o <<P("R_ANGLE")>>
        \o Groups(gs, e, r, s, g + 1)
 
 \* v = [aq, op (0 none), epoch, archs (<<>> none | <<neg..>>), hasArch, profs (seq of seq of neg)]
@@ -150,7 +158,7 @@ Positions(TT, i, p) == IF i > Len(TT) THEN <<>> ELSE << <<TT[i].k, p, 1>> >> \o 
 MkCase(TT, items, allow) ==
   [toks |-> Positions(TT, 1, 1), allow |-> allow, exp |-> Expected(TT, items), canon |-> CanonOf(Expected(TT, items)),
    roles |-> [i \in 1..Len(TT) |-> <<TT[i].role, TT[i].e, TT[i].r, TT[i].g>>],
-   hasSv |-> \E e \in 1..Len(items) : items[e].k = "S", dup |-> FALSE]
+   hasSv |-> \E e \in 1..Len(items) : items[e].k = "S", dup |-> FALSE, nlin |-> FALSE]
 
 E1(v) == [k |-> "E", vs |-> <<v>>]
 E2(v, w) == [k |-> "E", vs |-> <<v, w>>]
@@ -181,6 +189,8 @@ RandInit ==
 MCInit ==
   \* every single relation of the option lattice, in each inner layout
   \/ \E v \in GoodV : \E s \in (IF v.aq THEN 1..4 ELSE 1..3) : InitWith(MkCase(Field(<<E1(v)>>, s, DefC, DefP, <<>>, FALSE, <<>>), <<E1(v)>>, FALSE))
+  \/ \E v \in { x \in BigV : \E g \in 1..Len(x.profs) : Len(x.profs[g]) >= 2 } :
+       InitWith([MkCase(Field(<<E1(v)>>, 5, DefC, DefP, <<>>, FALSE, <<>>), <<E1(v)>>, FALSE) EXCEPT !.nlin = TRUE])
   \* alternatives and several entries, each separator layout
   \/ \E v \in FewV, w \in FewV, cs \in CommaStyles, ps \in PipeStyles, tc \in BOOLEAN :
        LET items == <<E2(v, w), E1(w)>> IN
@@ -209,5 +219,5 @@ FieldAccepted == Done => nerr = 0 /\ Structure = case.exp
 
 Emit == Done => PrintT(<<"REPLAY", ToJson([
            t |-> [k \in 1..Len(toks) |-> toks[k][1]], a |-> case.allow, x |-> case.exp, cn |-> case.canon, r |-> case.roles,
-           sv |-> case.hasSv, dup |-> case.dup, e |-> nerr, o |-> out ])>>)
+           sv |-> case.hasSv, dup |-> case.dup, nlin |-> case.nlin, e |-> nerr, o |-> out ])>>)
 =============================================================================
